@@ -4,7 +4,9 @@
 // server messages, each made concrete against what the server has seen of the client so far (the same
 // construction as coq/theories/SaslRun.v concretize / see_line).  Exhaustive over all sequences up to length
 // 4 (quick) / 5 (thorough) for SCRAM-SHA-1, SCRAM-SHA-256 and both -PLUS variants; plus retries on the same Auth
-// value (second call on a new connection) with an eleventh symbol: replay of the first call's valid server-final.
+// value (second call on a new connection) with an eleventh symbol: replay of the first call's valid server-final;
+// plus the family "restart inside one AUTH dialogue" ([empty] ++ prefix ++ [empty] ++ suffix) with a twelfth symbol:
+// the valid server-final of the earlier exchange of the same dialogue, resent.
 //
 // observable (compared with the model): result class and every line the client wrote.
 // direct oracle (independent of the model; reference functions of harness/saslx written from RFC 5802):
@@ -99,7 +101,7 @@ func newAuth(v variant, user, pass string, st *tls.ConnectionState) smtp.Auth {
 
 // ---- the adversary (mirror of SaslRun.v) ----
 
-type view struct{ bare, cn, sfirst, cfwp string }
+type view struct{ bare, cn, sfirst, cfwp, lastfinal string }
 
 func (v *view) see(line string) {
 	m, ok := saslx.UnB64(line)
@@ -165,7 +167,8 @@ const (
 	symJunk
 	symSuccess
 	symFailure
-	symReplay
+	symReplay         // second call of a retry only: the valid server-final of the FIRST call
+	symReplayDialogue // the last valid server-final (symbol 3) sent earlier in THIS dialogue, resent
 )
 
 type reply struct {
@@ -195,7 +198,10 @@ func concretize(h saslx.Hash, p params, prev string, sym byte, v *view) reply {
 		v.sfirst = m
 		return chal(m)
 	case symFinal:
-		return chal(srvSig(h, p.serverKey, v))
+		v.lastfinal = srvSig(h, p.serverKey, v)
+		return chal(v.lastfinal)
+	case symReplayDialogue:
+		return chal(v.lastfinal)
 	case symFinalOther:
 		return chal(srvSig(h, p.otherKey, v))
 	case symFinalEmpty:
@@ -356,7 +362,7 @@ func optHex(b []byte, ok bool) string {
 
 func nontrivial(syms []byte) bool {
 	for _, s := range syms {
-		if s <= symFinalEmpty || s == symReplay {
+		if s <= symFinalEmpty || s == symReplay || s == symReplayDialogue {
 			return true
 		}
 	}
@@ -485,6 +491,35 @@ func Run(r *hx.Run, replay []hx.Case) {
 				runCase(r, mkCase(r, "c15", v.name, seq, nil, "user", "pencil", salt, 2))
 				return true
 			})
+		}
+	}
+	// restart inside one AUTH dialogue: [empty] ++ prefix ++ [empty] ++ suffix, suffix over the alphabet + "earlier
+	// server-final resent" up to length 2 (for the -PLUS variants in quick: 1; thorough: 3 for all)
+	prefixes := [][]byte{{}, {symFirst}, {symFirst, symFinal}, {symFirstForeign}, {symFinalEmpty}}
+	sufAlpha := []byte{0, 1, 2, 3, 4, 5, 6, 7, 8, 9, symReplayDialogue}
+	for _, v := range variants {
+		sl := 2
+		if thorough {
+			sl = 3
+		} else if v.plus {
+			sl = 1
+		}
+		for _, pf := range prefixes {
+			for n := 0; n <= sl; n++ {
+				enumerate(n, len(sufAlpha), func(seq []byte) bool {
+					if r.Expired() {
+						return false
+					}
+					full := append([]byte{symEmpty}, pf...)
+					full = append(full, symEmpty)
+					for _, x := range seq {
+						full = append(full, sufAlpha[x])
+					}
+					r.Dist["family:restart"]++
+					runCase(r, mkCase(r, "c15", v.name, full, nil, "user", "pencil", salt, 2))
+					return true
+				})
+			}
 		}
 	}
 	// retries on the same Auth value: first call honest / interrupted, second call on a new connection.
